@@ -4,6 +4,7 @@
   `Props/C04.lean`; this file is the executable instance driven by the correspondence check.
 -/
 import SCoda.Model.Bar
+import SCoda.Model.QuantiseS
 namespace SCoda
 
 /-- constants and library functions the wrapper's operations close over -/
@@ -81,8 +82,9 @@ def normaliseSeq (s : Seq) : Except Err Seq := s.onRel (fun r => .ok (normalise 
 def padSeq (s : Seq) (n : Int) : Except Err Seq := s.onRel (fun r => .ok (pad n r))
 def setChannelSeq (s : Seq) (c : Int) : Except Err Seq := s.onRel (fun r => .ok (setChannel c r))
 def cutoffSeq (s : Seq) (m r : Int) : Except Err Seq := s.onAbs (fun a => .ok (cutoff m r a))
+/-- `quantise(step_sizes)`: `AbsoluteSequence.quantise` of the source repaired for D41 — sort, then the walk (`quantiseS`) -/
 def quantiseSeq (e : Env) (s : Seq) (steps : Option (List Int)) : Except Err Seq :=
-  s.onAbs (quantise (steps.getD e.defSteps))
+  s.onAbs (quantiseS (steps.getD e.defSteps))
 def qnlSeq (e : Env) (s : Seq) (values : Option (List Int)) (stdLen : Int) (dne : Bool) : Except Err Seq :=
   s.onAbs (quantiseNoteLengths (values.getD e.defValues) stdLen dne)
 
